@@ -231,7 +231,7 @@ def cases_for_program(rng, p, tier, heavy=True):
     names = all_names(p.eqs)
     lens = [L + Ld + 1 + d for d in range(4)]
     if not heavy:
-        lens = [L + Ld + 1, L + Ld + 2]
+        lens = [L + Ld + 1, L + Ld + 2] if len(p.eqs) == 1 else [L + Ld + 1 + (len(p.lines[0]) % 2)]
     for n in lens:
         wild = rng.random() < 0.25
         data = gen_data(rng, names, n, wild)
@@ -327,6 +327,12 @@ def cases_for_program(rng, p, tier, heavy=True):
                 c = base_case(p, n, data, 'solve', 0, max_iter=2, failures='ignore', errors='raise')
                 c['start'], c['end'], c['engine'] = a, b, 'fortran'
                 cases.append(c)
+            # FortranEngine._evaluate(t): every t in both spellings and one step beyond each end of the span
+            for t in range(-n - 1, n + 1):
+                if rng.random() < 0.6:
+                    c = base_case(p, n, data, 'evaluate', t)
+                    c['engine'] = 'fortran'
+                    cases.append(c)
     return cases
 
 
@@ -403,7 +409,7 @@ def fixed_cases():
 
 def gen(rng, tier):
     cases = fixed_cases()
-    nprog = 40 if tier == 'quick' else 250
+    nprog = 40 if tier == 'quick' else 180
     for _ in range(nprog):
         cases += cases_for_program(rng, gen_prog(rng), tier)
     if tier == 'thorough':
@@ -448,7 +454,10 @@ def impl_fortran(case):
     kw = dict(min_iter=o['min_iter'], max_iter=o['max_iter'], tol=lib.unhex(o['tol']), offset=o['offset'],
               failures=o['failures'], errors=o['errors'])
     try:
-        if case['entry'] == 'solve_t':
+        if case['entry'] == 'evaluate':
+            m._evaluate(case['t'])
+            out = ['ret', None]
+        elif case['entry'] == 'solve_t':
             out = ['ret', [bool(m.solve_t(case['t'], **kw))]]
         else:
             skw = dict(kw)
@@ -656,6 +665,17 @@ def correspond(cases, obs, tag, tier):
         if c['opts']['errors'] not in sc.ERRMODES:
             continue
         if o.get('engine') == 'fortran':
+            if c['entry'] == 'evaluate':
+                n_, t_ = c['n'], c['t']
+                p_ = _pos(t_, n_) if -n_ <= t_ < n_ else None
+                if p_ is None or not o['lags'] <= p_ < n_ - o['leads']:        # rejected by the index tests: no equations needed
+                    fm = '(FSolve.mkFmod %s %s %s)' % (lib.cZ(o['lags']), lib.cZ(o['leads']), lib.clist(lib.cZ(i + 1) for i in o['endo']))
+                    c_out = '(Ret tt)' if o['out'][0] == 'ret' else '(Raise %s)' % sc.EXN.get(o['out'][1], 'OtherError')
+                    items.append('(KG (mkG %s %s %s %s %s))' % (
+                        fm, lib.cZ(t_), _c_state(o['before'], c['status0'], c['iters0'], []),
+                        _c_state(o['after'], o['status'], o['iters'], []), c_out))
+                    owner.append(i)
+                continue
             if fortran_upfront(c, o):
                 items.append('(K2 %s)' % k_item_fortran(c, o))
                 owner.append(i)
@@ -674,6 +694,8 @@ def correspond(cases, obs, tag, tier):
 def explain(case, obs):
     if obs.get('skip'):
         return 'skipped: ' + obs['skip']
+    if obs.get('engine') == 'fortran' and case['entry'] == 'evaluate':
+        return 'Fortran engine, _evaluate: model Fortran/FSolve.w_evaluate answers IndexError with nothing changed iff t is outside the span or leaves no room for the lags / leads (theorem C04_fortran_evaluate_infeasible_rejected)'
     if obs.get('engine') == 'fortran':
         if not fortran_upfront(case, obs):
             return 'Fortran engine, call reaches the compiled loop: oracle only (the equations are not translated for this engine)'
@@ -755,6 +777,24 @@ def oracle(case, obs):
             bad('unassigned-row-changed', 'cell %s[%d] changed although no equation assigns %s' % (names[i], q, names[i]))
             break
     if case['entry'] == 'evaluate':
+        if obs.get('engine') == 'fortran':
+            # FortranEngine._evaluate: explicit index tests — a period outside the span or without room for the lags /
+            # leads is answered with IndexError and nothing changes; a feasible one writes only the assigned cells
+            t = case['t']
+            p = _pos(t, n) if -n <= t < n else None
+            if p is None or not L <= p < n - Ld:
+                if out[:2] != ['raise', 'IndexError']:
+                    bad('infeasible-period-served', 'FortranEngine._evaluate(%d) on a %d-period span with lags=%d leads=%d must raise IndexError; got %s' % (t, n, L, Ld, out))
+                if changed or st_changed:
+                    bad('infeasible-period-changed', 'FortranEngine._evaluate(%d) at an infeasible period changed values or status' % t)
+            else:
+                if out[0] == 'raise':
+                    bad('feasible-period-rejected', 'FortranEngine._evaluate(%d) raised %s although the period is feasible' % (t, out[1]))
+                extra = sorted(changed - {(i, p + k) for i, ks in lhs.items() for k in ks})
+                if extra:
+                    bad('cell-outside-frame', 'FortranEngine._evaluate(%d) changed %s[%d], which no equation assigns for this period' % (t, names[extra[0][0]], extra[0][1]))
+                if st_changed:
+                    bad('status-outside-t', '_evaluate changed status/iterations at %s' % sorted(st_changed))
         return fails
 
     def check_pass_logs(plogs):
@@ -869,7 +909,7 @@ def oracle(case, obs):
         if infeasible:
             bad('infeasible-period-served', 'solve(start=%s, end=%s) on a %d-period span with lags=%d leads=%d served position %d instead of rejecting it'
                 % (case['start'], case['end'], n, L, Ld, infeasible[0]))
-    elif infeasible and out[1] != 'IndexError' and not (fortran and out[1] == 'FortranEngineError') and not any(q for q in want if q < infeasible[0]):
+    elif infeasible and out[1] != 'IndexError' and not (fortran and out[1] == 'FortranEngineError') and not any(q < infeasible[0] for q in want):
         bad('infeasible-period-served', 'solve() starting at infeasible position %d raised %s, expected IndexError' % (infeasible[0], out[1]))
     elif not infeasible and out[1] == 'IndexError' and (o['offset'] == 0 or all(0 <= q + o['offset'] < n for q in want)):
         bad('feasible-period-rejected', 'solve(start=%s, end=%s) over the feasible positions %s raised IndexError' % (case['start'], case['end'], want))
